@@ -360,6 +360,19 @@ fn utxo_ref_into_input(x: &UtxoRef) -> Result<primitives::TransactionInput, Erro
     })
 }
 
+// the members of a set field: each once, in the order of their first mention
+fn distinct<T: PartialEq>(items: Vec<T>) -> Vec<T> {
+    let mut out: Vec<T> = Vec::with_capacity(items.len());
+
+    for item in items {
+        if !out.contains(&item) {
+            out.push(item);
+        }
+    }
+
+    out
+}
+
 fn compile_inputs(tx: &tir::Tx) -> Result<Vec<primitives::TransactionInput>, Error> {
     let refs = tx
         .inputs
@@ -552,17 +565,20 @@ fn compile_reference_inputs(tx: &tir::Tx) -> Result<Vec<primitives::TransactionI
         .map(|x| utxo_ref_into_input(&x))
         .collect::<Result<Vec<_>, _>>()?;
 
-    Ok(refs)
+    Ok(distinct(refs))
 }
 
 fn compile_collateral(tx: &tir::Tx) -> Result<Vec<TransactionInput>, Error> {
-    tx.collateral
+    let refs = tx
+        .collateral
         .iter()
         .filter_map(|collateral| collateral.utxos.as_option())
         .flat_map(coercion::expr_into_utxo_refs)
         .flatten()
         .map(|x| utxo_ref_into_input(&x))
-        .collect()
+        .collect::<Result<Vec<_>, _>>()?;
+
+    Ok(distinct(refs))
 }
 
 fn compile_required_signers(tx: &tir::Tx) -> Result<Option<primitives::RequiredSigners>, Error> {
@@ -576,7 +592,7 @@ fn compile_required_signers(tx: &tir::Tx) -> Result<Option<primitives::RequiredS
         .map(coercion::expr_into_address_keyhash)
         .collect::<Result<Vec<_>, _>>()?;
 
-    Ok(primitives::RequiredSigners::from_vec(hashes))
+    Ok(primitives::RequiredSigners::from_vec(distinct(hashes)))
 }
 
 fn compile_validity(validity: Option<&tir::Validity>) -> Result<(Option<u64>, Option<u64>), Error> {
